@@ -19,15 +19,25 @@ import (
 	"verifharness/internal/tlc"
 )
 
-var projFiles = []string{"main", "a", "b", "c"}
+var projFiles = []string{"main", "a", "b", "c", "t"}
 
 type projCase struct {
-	Req      map[string][]string `json:"req"`
-	Shared   bool                `json:"shared"`
-	Repeated bool                `json:"repeated"`
-	Order    []string            `json:"order"`
-	Saw      map[string][]string `json:"saw"`
+	Req      map[string][]string                     `json:"req"`
+	Shared   bool                                    `json:"shared"`
+	Repeated bool                                    `json:"repeated"`
+	Order    []string                                `json:"order"`
+	Saw      map[string][]string                     `json:"saw"`
 	AsBuilt  map[string]map[string]map[string]string `json:"asbuilt"`
+	Incl     []string                                `json:"incl"`
+}
+
+func (tc *projCase) inIncl(f string) bool {
+	for _, x := range tc.Incl {
+		if x == f {
+			return true
+		}
+	}
+	return false
 }
 
 // status: how a top-level read in file t.file of symbol t.sym resolves: ideally "ok"; as built in project mode
@@ -36,7 +46,7 @@ func (tc *projCase) status(t *projTok, asBuilt bool) string {
 	if !asBuilt || t.def || t.member {
 		return "ok"
 	}
-	k := t.sym[:strings.LastIndex(t.sym, "_")]
+	k := strings.TrimSuffix(t.sym[:strings.LastIndex(t.sym, "_")], "2")
 	return tc.AsBuilt[t.file][symFile(t.sym)][k]
 }
 
@@ -64,15 +74,16 @@ type projTok struct {
 }
 
 type projRender struct {
-	text map[string]string
-	toks []projTok
-	defs map[string]projTok // symbol -> its declaration
+	text  map[string]string
+	toks  []projTok
+	defs  map[string]projTok // symbol -> its declaration
+	probe map[string]int     // file -> the empty line inside its function body (completion is also asked there)
 }
 
 // projRenderWS renders the four files of a workspace.  layout 0: files side by side; layout 1: files scattered over
 // sub-directories (module names stay the bare file names, which the server resolves by file name).
 func projRenderWS(tc *projCase) *projRender {
-	r := &projRender{text: map[string]string{}, defs: map[string]projTok{}}
+	r := &projRender{text: map[string]string{}, defs: map[string]projTok{}, probe: map[string]int{}}
 	for _, f := range projFiles {
 		var sb strings.Builder
 		line := 0
@@ -93,6 +104,9 @@ func projRenderWS(tc *projCase) *projRender {
 		emit(fmt.Sprintf("g_%s = 1", f), projTok{col: 0, name: "g_" + f, sym: "g_" + f, def: true})
 		emit(fmt.Sprintf("_G.h_%s = 2", f), projTok{col: 3, name: "h_" + f, sym: "h_" + f, def: true})
 		emit(fmt.Sprintf("function fn_%s(p) return p end", f), projTok{col: 9, name: "fn_" + f, sym: "fn_" + f, def: true})
+		// globals that no file reads (completion must offer them all the same)
+		emit(fmt.Sprintf("g2_%s = 3", f), projTok{col: 0, name: "g2_" + f, sym: "g2_" + f, def: true})
+		emit(fmt.Sprintf("_G.h2_%s = 4", f), projTok{col: 3, name: "h2_" + f, sym: "h2_" + f, def: true})
 		emit("local M = {}")
 		emit(fmt.Sprintf("M.f_%s = 1", f), projTok{col: 2, name: "f_" + f, sym: "f_" + f, def: true, member: true})
 		emit(fmt.Sprintf("function M.m_%s(q) return q end", f), projTok{col: 11, name: "m_" + f, sym: "m_" + f, def: true, member: true})
@@ -122,6 +136,10 @@ func projRenderWS(tc *projCase) *projRender {
 			s += "m_" + g + "(2))"
 			emit(s, t1, t2)
 		}
+		r.probe[f] = line + 1
+		emit("local function probe(pp)")
+		emit("")
+		emit("end")
 		emit("return M")
 		r.text[f] = sb.String()
 	}
@@ -129,8 +147,8 @@ func projRenderWS(tc *projCase) *projRender {
 }
 
 var projDirs = [][]string{
-	{"main.lua", "a.lua", "b.lua", "c.lua"},
-	{"main.lua", "lib/a.lua", "lib/deep/b.lua", "other/c.lua"},
+	{"main.lua", "a.lua", "b.lua", "c.lua", "t.lua"},
+	{"main.lua", "lib/a.lua", "lib/deep/b.lua", "other/c.lua", "tools/t.lua"},
 }
 
 type projQ struct {
@@ -152,7 +170,8 @@ type projJob struct {
 }
 
 // projBuildCase builds the driver case of one workspace in one mode.
-func projBuildCase(id int, pj *projJob, project bool) *proto.Case {
+func projBuildCase(id int, pj *projJob, project bool, kinds string) *proto.Case {
+	wanted := func(k string) bool { return kinds == "" || strings.Contains(kinds, k) }
 	pc := &proto.Case{ID: id, Files: map[string]string{}, Init: json.RawMessage(allOnLocal)}
 	for _, f := range projFiles {
 		pc.Files[pj.path[f]] = pj.r.text[f]
@@ -162,6 +181,9 @@ func projBuildCase(id int, pj *projJob, project bool) *proto.Case {
 	}
 	pj.qs = pj.qs[:0]
 	add := func(st proto.Step, q projQ) {
+		if !wanted(strings.Fields(q.label)[0]) {
+			return
+		}
 		pc.Steps = append(pc.Steps, st)
 		q.step = len(pc.Steps) - 1
 		pj.qs = append(pj.qs, q)
@@ -197,7 +219,7 @@ func projBuildCase(id int, pj *projJob, project bool) *proto.Case {
 		fn := pj.path[f]
 		nl := strings.Count(pj.r.text[f], "\n")
 		ver := 2
-		typed := []string{"g_", "h_", "fn_"}
+		typed := []string{"g_", "h_", "fn_", "g2_", "h2_"}
 		if len(pj.tc.Req[f]) > 0 {
 			typed = append(typed, "r1.", "r1.m")
 		}
@@ -209,6 +231,17 @@ func projBuildCase(id int, pj *projJob, project bool) *proto.Case {
 			add(proto.Step{M: "textDocument/completion", P: compParams(fn, nl, len(w))}, projQ{label: "completion " + f + " after " + w, kind: "comp", pre: map[bool]string{true: w}[!strings.Contains(w, ".")], file: f})
 		}
 		pc.Steps = append(pc.Steps, changeStep(fn, ver, nl, 0, nl, len(prev), ""))
+		ver++
+		// ... and inside a function body
+		pl := pj.r.probe[f]
+		prev = ""
+		for _, w := range []string{"g_", "h2_", "fn_", "g2_"} {
+			pc.Steps = append(pc.Steps, changeStep(fn, ver, pl, 0, pl, len(prev), w))
+			ver++
+			prev = w
+			add(proto.Step{M: "textDocument/completion", P: compParams(fn, pl, len(w))}, projQ{label: "completion " + f + " in a function body after " + w, kind: "comp", pre: w, file: f})
+		}
+		pc.Steps = append(pc.Steps, changeStep(fn, ver, pl, 0, pl, len(prev), ""))
 	}
 	return pc
 }
@@ -301,6 +334,19 @@ func projExpect(pj *projJob, asBuilt bool) map[string]string {
 		}
 		d := pj.r.defs[q.tok.sym]
 		occs := func(sameFile bool) string {
+			if asBuilt && !sameFile && !q.tok.member && symFile(q.tok.sym) == "t" {
+				// a global of the scattered file: the search covers the scattered file and what it requires,
+				// wherever it is asked (Project.tla Incl)
+				var ls []string
+				for k := range pj.r.toks {
+					t := &pj.r.toks[k]
+					if t.sym == q.tok.sym && pj.tc.inIncl(t.file) {
+						ls = append(ls, fmt.Sprintf("%s:%d:%d", pj.path[t.file], t.line, t.col))
+					}
+				}
+				sort.Strings(ls)
+				return strings.Join(ls, " ")
+			}
 			if st(q.tok) == "unknown" {
 				return ""
 			}
@@ -438,7 +484,7 @@ func projectRuns(c *Ctx, p *pool.Pool, maxReq int, kinds string) bool {
 		}
 	}
 	var raws []json.RawMessage
-	st, err := c.TLC(tlc.Run{Module: "Project", Workers: 2, Timeout: 10 * time.Minute, 
+	st, err := c.TLC(tlc.Run{Module: "Project", Workers: 2, Timeout: 10 * time.Minute,
 		Cfg: fmt.Sprintf("CONSTANTS\n  MaxReq = %d\nINIT Init\nNEXT Next\nINVARIANTS TypeOK EntryMember SawSelf EntrySeesAll SawSound PlainSeesMore OrderIsMembers NoMutualSight EntryResolvesAll GNeverUnknown Emit\nCHECK_DEADLOCK FALSE\n", maxReq)}, func(j json.RawMessage) {
 		raws = append(raws, append(json.RawMessage{}, j...))
 	})
@@ -490,7 +536,7 @@ func projJudgeAll(c *Ctx, p *pool.Pool, raws []json.RawMessage, kinds string) (i
 		}
 		pr := &pair{pj: pj}
 		for m := 0; m < 2; m++ {
-			pc := projBuildCase(2*i+m+1, pj, m == 1)
+			pc := projBuildCase(2*i+m+1, pj, m == 1, kinds)
 			pr.cases[m] = pc
 			pr.qs[m] = append([]projQ{}, pj.qs...)
 			groups = append(groups, []*proto.Case{pc})
@@ -569,7 +615,7 @@ func projJudgeAll(c *Ctx, p *pool.Pool, raws []json.RawMessage, kinds string) (i
 				prob = append(prob, fmt.Sprintf("[diff] %s: plain %s, project %s", q.label, clip(a, 300), clip(b, 300)))
 			}
 		}
-		if len(prob) == 0 && deviates && !surveyMode {
+		if len(prob) == 0 && deviates && !surveyMode && c.Prop != "PROJ" {
 			c.Rep.Deviation("Dev_ProjectLoadOrder", desc, pj.raw)
 		}
 		if len(prob) == 0 {
@@ -616,5 +662,211 @@ func checkPROJ(c *Ctx) {
 	c.poolStats(p)
 	if surveyMode {
 		sv.dump()
+	}
+}
+
+// ---- histories in project mode (C08) ----
+
+// projEdited: the text of file f after edit step k (1: its plain global g_f is renamed away, so that every read of it
+// dangles; 2: the global comes back two lines lower). The require statements are not touched.
+func projEdited(text, f string, k int) string {
+	old := fmt.Sprintf("g_%s = 1\n", f)
+	switch k {
+	case 1:
+		return strings.Replace(text, old, fmt.Sprintf("gx_%s = 1\n", f), 1)
+	case 2:
+		return strings.Replace(text, old, fmt.Sprintf("gx_%s = 1\ngy_%s = 1\ng_%s = 1\n", f, f, f), 1)
+	}
+	return text
+}
+
+// projHistoryRuns: on Project.tla workspaces in project mode, one file (a seeded choice per workspace) is edited and
+// saved twice; after each save the client's diagnostics and the answers to go-to-definition on every occurrence of
+// the edited global must equal those of a fresh server started on the files as they then are.
+func projHistoryRuns(c *Ctx, p *pool.Pool, maxReq int, given []json.RawMessage) bool {
+	raws := given
+	if given == nil {
+		st, err := c.TLC(tlc.Run{Module: "Project", Workers: 2, Timeout: 10 * time.Minute,
+			Cfg: fmt.Sprintf("CONSTANTS\n  MaxReq = %d\nINIT Init\nNEXT Next\nINVARIANTS TypeOK EntryMember Emit\nCHECK_DEADLOCK FALSE\n", maxReq)}, func(j json.RawMessage) {
+			raws = append(raws, append(json.RawMessage{}, j...))
+		})
+		if err != nil || st.ExitCode != 0 {
+			c.Rep.Fatal(fmt.Sprintf("project histories: TLC failure: %v exit=%d\n%s", err, st.ExitCode, lastLines(st.Out, 15)))
+			return false
+		}
+	}
+	type hist struct {
+		raw    json.RawMessage
+		tc     *projCase
+		r      *projRender
+		path   map[string]string
+		edit   string
+		res    [3]*proto.Result // 0: history, 1: fresh after step 1, 2: fresh after step 2
+		marks  [2]int           // history: index of the last step of edit k
+		qsteps [3][][2]int      // per case: (first query step, count) per snapshot
+	}
+	hs := map[int]*hist{}
+	var groups [][]*proto.Case
+	cfgText := `{"ShowWarnFlag":1,"ProjectFiles":["main.lua"]}`
+	for i, raw := range raws {
+		var tc projCase
+		if json.Unmarshal(raw, &tc) != nil {
+			continue
+		}
+		hv := hash64(string(raw), scSeed+77)
+		h := &hist{raw: raw, tc: &tc, r: projRenderWS(&tc), path: map[string]string{}, edit: projFiles[int(hv%uint64(len(projFiles)))]}
+		layout := int(hv>>8) % 2
+		for k, f := range projFiles {
+			h.path[f] = projDirs[layout][k]
+		}
+		// queries: definition on every occurrence of the edited file's plain global, per snapshot text
+		queries := func(pc *proto.Case, k int) [2]int {
+			first := len(pc.Steps)
+			n := 0
+			for _, f := range projFiles {
+				text := h.r.text[f]
+				if f == h.edit {
+					text = projEdited(text, f, k)
+				}
+				name := "g_" + h.edit
+				for li, line := range strings.Split(text, "\n") {
+					for off := 0; ; {
+						j := strings.Index(line[off:], name)
+						if j < 0 {
+							break
+						}
+						col := off + j
+						if col == 0 || !(line[col-1] == '_' || (line[col-1] >= 'a' && line[col-1] <= 'z')) {
+							pc.Steps = append(pc.Steps, proto.Step{M: "textDocument/definition", P: posParams(h.path[f], li, col+1)})
+							n++
+						}
+						off = col + len(name)
+					}
+				}
+			}
+			return [2]int{first, n}
+		}
+		mk := func(id int, k int) *proto.Case {
+			pc := &proto.Case{ID: id, Files: map[string]string{"luahelper.json": cfgText}, Init: json.RawMessage(allOnLocal)}
+			for _, f := range projFiles {
+				text := h.r.text[f]
+				if f == h.edit {
+					text = projEdited(text, f, k)
+				}
+				pc.Files[h.path[f]] = text
+			}
+			return pc
+		}
+		// history
+		hc := mk(3*i+1, 0)
+		for _, f := range projFiles {
+			hc.Steps = append(hc.Steps, openStep(h.path[f], h.r.text[f]))
+		}
+		fn := h.path[h.edit]
+		nl := strings.Count(h.r.text[h.edit], "\n")
+		prevLines := nl
+		for k := 1; k <= 2; k++ {
+			txt := projEdited(h.r.text[h.edit], h.edit, k)
+			hc.Steps = append(hc.Steps, changeStep(fn, k+1, 0, 0, prevLines, 0, txt),
+				proto.Step{M: "fs.write", Path: fn, Text: txt},
+				proto.Step{M: "textDocument/didSave", N: true, P: json.RawMessage(fmt.Sprintf(`{"textDocument":{"uri":"file://$ROOT/%s"},"text":%s}`, fn, jstr(txt)))})
+			prevLines = strings.Count(txt, "\n")
+			h.marks[k-1] = len(hc.Steps) - 1
+			h.qsteps[0] = append(h.qsteps[0], queries(hc, k))
+		}
+		groups = append(groups, []*proto.Case{hc})
+		for k := 1; k <= 2; k++ {
+			fc := mk(3*i+1+k, k)
+			for _, f := range projFiles {
+				fc.Steps = append(fc.Steps, openStep(h.path[f], fc.Files[h.path[f]]))
+			}
+			h.qsteps[k] = append(h.qsteps[k], queries(fc, k))
+			groups = append(groups, []*proto.Case{fc})
+		}
+		hs[i] = h
+	}
+	n := 0
+	perr := p.RunSlice(groups, func(pc *proto.Case, res *proto.Result) {
+		i := (pc.ID - 1) / 3
+		h := hs[i]
+		h.res[(pc.ID-1)%3] = res
+		if h.res[0] == nil || h.res[1] == nil || h.res[2] == nil {
+			return
+		}
+		delete(hs, i)
+		n++
+		c.Rep.Eval("hist:" + string(h.raw))
+		rq, _ := json.Marshal(h.tc.Req)
+		desc := fmt.Sprintf("project mode, workspace requires %s, %s edited and saved twice (its global g_%s renamed away, then restored two lines lower)", rq, h.path[h.edit], h.edit)
+		for m := 0; m < 3; m++ {
+			if h.res[m].Crash != "" || h.res[m].Hang {
+				c.Rep.Violation(h.raw, fmt.Sprintf("%s: server died or hung (crash=%q, case %d)", desc, h.res[m].Crash, m))
+				return
+			}
+		}
+		var prob []string
+		view := map[string][]diag{}
+		foldDiags(h.res[0].Root, view, h.res[0].InitNtfs)
+		si := 0
+		for k := 1; k <= 2; k++ {
+			for ; si <= h.marks[k-1] && si < len(h.res[0].Steps); si++ {
+				foldDiags(h.res[0].Root, view, h.res[0].Steps[si].Ntfs)
+			}
+			fv := map[string][]diag{}
+			foldDiags(h.res[k].Root, fv, h.res[k].InitNtfs)
+			for _, st := range h.res[k].Steps {
+				foldDiags(h.res[k].Root, fv, st.Ntfs)
+			}
+			for _, f := range projFiles {
+				a, b := diagKeySet(view[h.path[f]]), diagKeySet(fv[h.path[f]])
+				if a != b {
+					prob = append(prob, fmt.Sprintf("after save %d the client holds for %s {%s}, a fresh server reports {%s}", k, h.path[f], a, b))
+				}
+			}
+			hq, fq := h.qsteps[0][k-1], h.qsteps[k][0]
+			for x := 0; x < hq[1] && x < fq[1]; x++ {
+				if hq[0]+x >= len(h.res[0].Steps) || fq[0]+x >= len(h.res[k].Steps) {
+					break
+				}
+				a := canonText(h.res[0].Root, &h.res[0].Steps[hq[0]+x])
+				b := canonText(h.res[k].Root, &h.res[k].Steps[fq[0]+x])
+				if a != b {
+					prob = append(prob, fmt.Sprintf("after save %d definition query #%d on g_%s answers %s, a fresh server %s", k, x, h.edit, clip(a, 200), clip(b, 200)))
+				}
+			}
+			// queries come after the save: fold what they triggered, too
+			for ; si < hq[0]+hq[1] && si < len(h.res[0].Steps); si++ {
+				foldDiags(h.res[0].Root, view, h.res[0].Steps[si].Ntfs)
+			}
+		}
+		if len(prob) == 0 {
+			return
+		}
+		if surveyMode {
+			for _, s := range prob {
+				sv.add("projhist "+firstWords(s, 7), desc+": "+s)
+			}
+			return
+		}
+		c.Rep.Violation(h.raw, desc+": "+strings.Join(prob, "; "))
+	})
+	c.Rep.Traces += int64(n)
+	if perr != nil {
+		c.Rep.Fatal(fmt.Sprintf("project histories: pool failure: %v", perr))
+		return false
+	}
+	c.Rep.Extra["run_project_histories"] = map[string]interface{}{"workspaces": len(raws), "histories": n, "max_requires": maxReq}
+	return true
+}
+
+func init() {
+	registry["PROJH"] = func(c *Ctx) {
+		p := c.NewPool(0)
+		scSeed = c.Seed
+		projHistoryRuns(c, p, 4, nil)
+		c.poolStats(p)
+		if surveyMode {
+			sv.dump()
+		}
 	}
 }
